@@ -209,13 +209,14 @@ class Oracle:
 
     def col(self, name):
         e = self.env
+        lift = lambda c: [v if isinstance(v, V) else V(v) for v in c]
         if name in ("x", "y", "z", "t"):
-            return [V(v) for v in e[name]]
+            return lift(e[name])
         if name == "idx":
             return [V(i) for i in range(self.n)]
         for k, c in e["feats"]:
             if k == name:
-                return [V(v) for v in c]
+                return lift(c)
         raise KeyError(name)
 
     # ---- one observation, two operands
@@ -528,12 +529,45 @@ class Oracle:
         return self.binop(t[1], self.ev(t[2]), self.ev(t[3]), scalar)
 
 
+def pre_env(case, quirks=()):
+    """the track as the statements run BEFORE the judged one leave it (columns become lists of V): the property applied
+    to each earlier statement ('lhs=e' stores the value under lhs, nothing else changes; without '=' nothing changes).
+    None when one of them has no value in ordinary arithmetic or may raise."""
+    env = case["env"]
+    for pre in case.get("pre", ()):
+        o = Oracle(env, quirks)
+        try:
+            vals = o.ev(pre["tree"])
+        except (OutOfDomain, KeyError):
+            return None
+        if o.divzero or o.undef:
+            return None
+        lhs = pre.get("lhs")
+        if lhs:
+            env = dict(env)
+            if lhs in ("x", "y", "z"):
+                if any(p.any or isnan(p.v) for p in vals):
+                    return None
+                env[lhs] = vals
+            else:
+                feats = [[k, c] for k, c in env["feats"] if k != lhs]
+                if len(feats) == len(env["feats"]):
+                    feats.append([lhs, vals])
+                else:
+                    feats = [[k, (vals if k == lhs else c)] for k, c in env["feats"]]
+                env["feats"] = feats
+    return env
+
+
 def oracle(case, quirks=()):
     """(values | None when out of domain, divzero, undef)"""
-    o = Oracle(case["env"], quirks)
+    env = pre_env(case, quirks)
+    if env is None:
+        return None, False, False
+    o = Oracle(env, quirks)
     try:
         vals = o.ev(case["tree"])
-    except OutOfDomain:
+    except (OutOfDomain, KeyError):
         return None, o.divzero, o.undef
     return vals, o.divzero, o.undef
 
@@ -806,6 +840,12 @@ class P(Prop):
             return ["par", self.rand_tree(rng, d - 1, wide)]
         return ["call", rng.choice(FUNCS), self.rand_tree(rng, d - 1, wide)]
 
+    def subst_var(self, t, rng, names):
+        """some variable leaves replaced by names defined by earlier statements"""
+        if t[0] == "var":
+            return ["var", rng.choice(names)] if rng.random() < 0.5 else t
+        return [self.subst_var(c, rng, names) if isinstance(c, list) else c for c in t]
+
     def mk_case(self, tree, env, lhs, bare, rng=None, spaces=False, stars=False):
         c = {"kind": "expr", "tree": tree, "env": env, "lhs": lhs, "bare": bool(bare), "spaces": bool(spaces), "stars": bool(stars)}
         c["expr"] = self.render(c)
@@ -934,6 +974,33 @@ class P(Prop):
                 out.append(c)
             elif rng.random() < 0.25:
                 out.append({"kind": "malformed", "expr": c["expr"], "env": env})
+        # sequences: one or two statements run first on the same track (state left by earlier calls: columns created,
+        # overwritten, coordinates written, temporaries purged), then the judged statement, which may read what they wrote
+        for i in range(30000 if thorough else 2500):
+            st = rng.random()
+            env = self.fix_env(self.rand_env(rng, easy=st < 0.3, style=None if st < 0.6 else "scaled"))
+            defined = []
+            pre = []
+            for j in range(rng.choice([1, 1, 2])):
+                pt = self.rand_tree(rng, rng.choice([1, 2, 3]), wide=st >= 0.6)
+                if defined and rng.random() < 0.5:
+                    pt = self.subst_var(pt, rng, defined)
+                plhs = rng.choice(["c", "c", "d", "a", "b", "x", "y", None])
+                pc = self.mk_case(pt, env, plhs, bare=rng.random() < 0.5)
+                pre.append({"lhs": plhs, "tree": pt, "expr": pc["expr"]})
+                if plhs in ("c", "d"):
+                    defined.append(plhs)
+            t = self.rand_tree(rng, rng.choice([2, 3, 3, 4]), wide=st >= 0.6)
+            if defined:
+                t = self.subst_var(t, rng, defined)
+            if has_call_of_constant(t) or any(has_call_of_constant(p["tree"]) for p in pre):
+                continue
+            c = self.mk_case(t, env, rng.choice([None, None, "c", "a", "x", "e"]), bare=rng.random() < 0.5)
+            c["pre"] = pre
+            if rng.random() < 0.3:
+                c["via"] = rng.choice(["getitem", "op"]) if any(ch in c["expr"] for ch in "+-/*^><()='") else "op"
+            if self.in_domain(c):
+                out.append(c)
         # reflexive operators  lhs op= e   (meaning lhs = lhs op (e))
         for i in range(15000 if thorough else 600):
             rhs = self.rand_tree(rng, rng.choice([1, 2, 3, 4]))
@@ -1021,6 +1088,7 @@ class P(Prop):
             t["sign"] = "bare" if case["bare"] else "paren"
             t["form"] = "reflexive" if case.get("reflex") else ("assign" if case["lhs"] else "value")
             t["via"] = case.get("via", "operate")
+            t["earlier_statements"] = len(case.get("pre", ()))
         if case["kind"] == "op":
             t["form"] = case["form"]
         return t
@@ -1039,7 +1107,10 @@ class P(Prop):
             t = self.mk_track(case["env"])
             status, ret = "ok", None
             try:
-                ret = t[case["expr"]] if case.get("via") == "getitem" else t.operate(case["expr"])
+                for pre in case.get("pre", ()):
+                    t.operate(pre["expr"])
+                via = case.get("via")
+                ret = t[case["expr"]] if via == "getitem" else (t.op(case["expr"]) if via == "op" else t.operate(case["expr"]))
             except BaseException as e:
                 if isinstance(e, KeyboardInterrupt):
                     raise
@@ -1104,6 +1175,8 @@ class P(Prop):
     def requests(self, case):
         k = case["kind"]
         if k in ("expr", "malformed"):
+            if case.get("pre"):
+                return ["C02.operateseq %s %s" % (self.track_tokens(case["env"]), ",".join(enc(p["expr"]) for p in case["pre"]) + "," + enc(case["expr"]))]
             reqs = ["C02.operate %s %s" % (self.track_tokens(case["env"]), enc(case["expr"]))]
             if k == "expr":
                 reqs.append("C02.denote %s %s" % (self.track_tokens(case["env"]), ",".join(tree_tokens(case["tree"]))))
@@ -1141,7 +1214,7 @@ class P(Prop):
             raise ValueError("driver rejected the request")
         if k in ("expr", "malformed"):
             out = self.dec_state(case, replies[0].split(" "))
-            if k == "expr":
+            if k == "expr" and len(replies) > 1:
                 st, vec = replies[1].split(" ")
                 out["denote"] = [st, None if vec == "none" else [bitsf(x) for x in untok(vec)]]
             return out
@@ -1174,6 +1247,8 @@ class P(Prop):
             return None          # a complex power: Python goes on with complex numbers, outside the model (and the property)
         if k == "expr":
             m = dict(model_out)
+            if "denote" not in m:
+                return self.tight(impl_out, m)       # a sequence of statements: the whole run is compared
             den = m.pop("denote")
             # internal consistency of the model (what theorem T1 states): the stack machine agrees with the tree semantics
             if m["status"] == "ok" and den[0] == "ok":
@@ -1205,12 +1280,22 @@ class P(Prop):
         want_names = sorted({k for k, _ in env["feats"]} | ({except_name} if except_name else set()))
         if out["names"] != want_names:
             return "names listed afterwards are %s, expected %s" % (out["names"], want_names)
+        def differs(got, c, what):
+            if any(isinstance(v, V) for v in c):      # a column written by an earlier statement of the sequence
+                return vec_matches(got, [v if isinstance(v, V) else V(v) for v in c], what + " (left by the earlier statements)")
+            if not close(got, list(c), 0.0, 0.0):
+                return "%s changed from %s to %s" % (what, c, got)
+            return None
         for k, c in env["feats"]:
-            if k != except_name and not close(out["cols"][k], list(c), 0.0, 0.0):
-                return "feature %s changed from %s to %s" % (k, c, out["cols"][k])
+            if k != except_name:
+                m = differs(out["cols"][k], c, "feature %s" % k)
+                if m:
+                    return m
         for k in "xyzt":
-            if k != except_coord and not close(out[k], list(env[k]), 0.0, 0.0):
-                return "%s changed from %s to %s" % (k, env[k], out[k])
+            if k != except_coord:
+                m = differs(out[k], env[k], k)
+                if m:
+                    return m
         return None
 
     def spec(self, case, out):
@@ -1241,7 +1326,7 @@ class P(Prop):
         vals, divzero, undef = oracle(case, quirks)
         if vals is None:
             return None                      # no value in ordinary arithmetic (documented domain restriction)
-        env = case["env"]
+        env = pre_env(case, quirks) if case.get("pre") else case["env"]
         if k == "op":
             if undef:
                 return None
@@ -1316,6 +1401,10 @@ class P(Prop):
             c["expr"] = self.render(c)
             yield c                      # the plain form lhs=lhs op (e)
             return
+        if case.get("pre"):
+            yield {k: v for k, v in case.items() if k != "pre"}
+            for i in range(len(case["pre"])):
+                yield dict(case, pre=case["pre"][:i] + case["pre"][i + 1:])
         t = case["tree"]
 
         def rebuilt(nt, **kw):
